@@ -86,6 +86,10 @@ func VerifyUnit(ld *Loaded, u *FuncUnit, cfg *Config) (res *UnitResult) {
 		args = append(args, v)
 	}
 	fr.args = args
+	{
+		h := x.heapGet(st, "g:adrop", tb.Array(tb.BV(64), tb.BV(64)))
+		x.heapSet(st, "g:adrop", tb.Store(h, tb.BVInt(0, 64), tb.BVInt(0, 64)))
+	}
 	x.loadAxioms(st)
 	for _, a := range args {
 		for _, l := range a.L {
